@@ -57,13 +57,23 @@ Proof.
   rewrite nth_error_app1 by assumption. now rewrite E.
 Qed.
 
-Lemma firstn1_prefix {A} (l : list A) : exists r, l = firstn 1 l ++ r.
-Proof. destruct l as [|x t]; [exists []|exists t]; reflexivity. Qed.
+Lemma firstn_prefix {A} k (l : list A) : exists r, l = firstn k l ++ r.
+Proof. exists (skipn k l). now rewrite firstn_skipn. Qed.
+
+Lemma firstn_1_2 {A} (l : list A) : exists r, firstn 2 l = firstn 1 l ++ r.
+Proof. destruct l as [|x [|y t]]; [exists []|exists []|exists [y]]; reflexivity. Qed.
 
 (** [d] is the tree of workspace [w]'s working-copy commit in an operation that exists once
     the snapshot phase of the command is over: an old operation, or the first new one. *)
 Definition RecordedEarly (st : state) (ev : event) (w : N) (d : N) : Prop :=
-  exists i, tree_of (s_ops st ++ firstn 1 (e_ops ev)) i w = Some d.
+  exists i, tree_of (s_ops st ++ firstn (early_n ev) (e_ops ev)) i w = Some d.
+
+Lemma recorded_early_1 st ev w d i :
+  tree_of (s_ops st ++ firstn 1 (e_ops ev)) i w = Some d -> RecordedEarly st ev w d.
+Proof.
+  intros H. exists i. unfold early_n. destruct (e_kind ev); try exact H;
+    (destruct (firstn_1_2 (e_ops ev)) as [r ->]; rewrite app_assoc; now apply tree_of_app).
+Qed.
 
 Lemma snapshot_phase_recorded ops L w d news cur body bidx :
   snapshot_phase ops L w d news = Some (cur, body, bidx) ->
@@ -106,17 +116,19 @@ Lemma exp_present_safe st ev h ws hs x extra :
   RecordedEarly st ev (e_ws ev) (w_disk ws).
 Proof.
   unfold exp_present.
+  destruct (memn (w_op ws) (s_lost st)).
+  { destruct (N.eqb (e_status ev) 1 && is_nil (e_ops ev)); discriminate. }
   destruct (check_stale (s_ops st) ws h (e_ws ev)) eqn:F.
   - (* fresh *)
     destruct (N.eqb (e_status ev) 1); [discriminate|].
     destruct (snapshot_phase (s_ops st) h (e_ws ev) (w_disk ws) (e_ops ev)) as [[[cur body] bidx]|] eqn:S;
       [|discriminate].
-    intros _. exists cur. eapply snapshot_phase_recorded; eauto.
+    intros _. eapply recorded_early_1. eapply snapshot_phase_recorded; eauto.
   - (* updated *)
     destruct (N.eqb (e_status ev) 1); [discriminate|].
     destruct (snapshot_phase (s_ops st) wc_op (e_ws ev) (w_disk ws) (e_ops ev)) as [[[cur body] bidx]|] eqn:S;
       [|discriminate].
-    intros _. exists cur. eapply snapshot_phase_recorded; eauto.
+    intros _. eapply recorded_early_1. eapply snapshot_phase_recorded; eauto.
   - destruct (N.eqb (e_status ev) 1 && is_nil (e_ops ev)); discriminate.
   - destruct (N.eqb (e_status ev) 1 && is_nil (e_ops ev)); discriminate.
 Qed.
@@ -151,6 +163,9 @@ Proof.
     destruct (e_kind ev); try (intros H; inversion H; contradiction).
     destruct body as [|b0 bt]; [intros H; inversion H; contradiction|].
     intros H. eapply add_workspace_extra; eauto. }
+  destruct (memn (w_op ws) (s_lost st)).
+  { destruct (N.eqb (e_status ev) 1 && is_nil (e_ops ev)); [|discriminate].
+    intros H. inversion H. contradiction. }
   destruct (check_stale (s_ops st) ws h (e_ws ev)).
   - apply G.
   - apply G.
@@ -160,25 +175,78 @@ Proof.
     intros H. inversion H. contradiction.
 Qed.
 
-Lemma exp_update_stale_safe st ev ws hs x extra :
-  exp_update_stale st ev ws = Some (hs, Some x, extra) ->
-  RecordedEarly st ev (e_ws ev) (w_disk ws) /\ extra = [].
+Lemma exp_recover_recorded st ev h ws wb r :
+  e_kind ev = KUpdateStale \/ e_kind ev = KRecoverThen ->
+  exp_recover st ev h ws wb = Some r ->
+  RecordedEarly st ev (e_ws ev) (w_disk ws).
 Proof.
-  unfold exp_update_stale.
+  intros Hk. unfold exp_recover.
+  destruct (e_ops ev) as [|R rest] eqn:Eo; [discriminate|].
+  destruct (tree_of (s_ops st) h (e_ws ev)) as [th|]; [|discriminate].
+  destruct (list_eqb Nat.eqb (o_par R) [h] && option_eqb N.eqb (lookupN (e_ws ev) (o_wcs R)) (Some th)
+            && N.eqb (e_status ev) 0); [|discriminate].
+  destruct (snapshot_phase (s_ops st ++ [R]) (length (s_ops st)) (e_ws ev) (w_disk ws) rest)
+    as [[[cur body] bidx]|] eqn:S; [|discriminate].
+  intros _. exists cur. apply snapshot_phase_recorded in S.
+  assert (E2 : early_n ev = 2) by (unfold early_n; destruct Hk as [-> | ->]; reflexivity).
+  rewrite E2, Eo.
+  assert (X : s_ops st ++ firstn 2 (R :: rest) = (s_ops st ++ [R]) ++ firstn 1 rest).
+  { rewrite <- app_assoc. reflexivity. }
+  now rewrite X.
+Qed.
+
+Lemma recover_keeps_disk st ev h ws hs x extra :
+  exp_recover st ev h ws false = Some (hs, Some x, extra) ->
+  w_disk x = w_disk ws /\ w_tree x = w_disk ws
+  /\ tree_of (s_ops st ++ e_ops ev) (w_op x) (e_ws ev) = Some (w_disk ws).
+Proof.
+  unfold exp_recover.
+  destruct (e_ops ev) as [|R rest] eqn:Eo; [discriminate|].
+  destruct (tree_of (s_ops st) h (e_ws ev)) as [th|]; [|discriminate].
+  destruct (list_eqb Nat.eqb (o_par R) [h] && option_eqb N.eqb (lookupN (e_ws ev) (o_wcs R)) (Some th)
+            && N.eqb (e_status ev) 0); [|discriminate].
+  destruct (snapshot_phase (s_ops st ++ [R]) (length (s_ops st)) (e_ws ev) (w_disk ws) rest)
+    as [[[cur body] bidx]|] eqn:S; [|discriminate].
+  destruct (is_nil body) eqn:Nb; [|discriminate].
+  intros H. inversion H. subst. cbn [w_disk w_tree w_op]. repeat split.
+  pose proof (snapshot_phase_recorded _ _ _ _ _ _ _ _ S) as T.
+  destruct (firstn_prefix 1 rest) as [r Hr].
+  assert (X : s_ops st ++ R :: rest = ((s_ops st ++ [R]) ++ firstn 1 rest) ++ r).
+  { rewrite <- !app_assoc. cbn [app]. now rewrite <- Hr. }
+  rewrite X. now apply tree_of_app.
+Qed.
+
+Lemma exp_recover_extra st ev h ws wb hs upd extra :
+  exp_recover st ev h ws wb = Some (hs, upd, extra) -> extra = [].
+Proof.
+  unfold exp_recover. intros H.
+  repeat match type of H with
+         | (match ?c with _ => _ end) = _ => destruct c; try discriminate
+         | (if ?c then _ else _) = _ => destruct c; try discriminate
+         | (let (_, _) := ?c in _) = _ => destruct c
+         end; now inversion H.
+Qed.
+
+Lemma exp_update_stale_recorded st ev ws r :
+  e_kind ev = KUpdateStale ->
+  exp_update_stale st ev ws = Some r -> RecordedEarly st ev (e_ws ev) (w_disk ws).
+Proof.
+  intros Hk. unfold exp_update_stale.
+  destruct (memn (w_op ws) (s_lost st)).
+  { destruct (s_heads st) as [|h [|h2 t]]; try discriminate.
+    intros H. eapply exp_recover_recorded; eauto. }
   destruct (snapshot_phase (s_ops st) (w_op ws) (e_ws ev) (w_disk ws) (e_ops ev))
     as [[[cur rest] idx]|] eqn:S; [|discriminate].
-  intros H. split.
-  - exists cur. eapply snapshot_phase_recorded; eauto.
-  - repeat match type of H with
-           | (match ?c with _ => _ end) = _ => destruct c; try discriminate
-           | (if ?c then _ else _) = _ => destruct c; try discriminate
-           end; now inversion H.
+  intros _. eapply recorded_early_1. eapply snapshot_phase_recorded; eauto.
 Qed.
 
 Lemma exp_update_stale_extra st ev ws hs upd extra :
   exp_update_stale st ev ws = Some (hs, upd, extra) -> extra = [].
 Proof.
-  unfold exp_update_stale. intros H.
+  unfold exp_update_stale.
+  destruct (memn (w_op ws) (s_lost st)).
+  { destruct (s_heads st) as [|h [|h2 t]]; try discriminate. apply exp_recover_extra. }
+  intros H.
   repeat match type of H with
          | (match ?c with _ => _ end) = _ => destruct c; try discriminate
          | (if ?c then _ else _) = _ => destruct c; try discriminate
@@ -209,7 +277,8 @@ Lemma expected_res_safe st ev hs upd extra :
   expected_res st ev = Some (hs, upd, extra) -> e_kind ev <> KEdit ->
   (forall k y, In (k, y) extra -> lookupN k (s_ws st) = None)
   /\ (forall x ws, upd = Some x -> lookupN (e_ws ev) (s_ws st) = Some ws ->
-        RecordedEarly st ev (e_ws ev) (w_disk ws) \/ absent_from_view st (e_ws ev) = true).
+        w_disk x = w_disk ws
+        \/ RecordedEarly st ev (e_ws ev) (w_disk ws) \/ absent_from_view st (e_ws ev) = true).
 Proof.
   unfold expected_res. intros H Hk.
   destruct (lookupN (e_ws ev) (s_ws st)) as [ws|] eqn:Hw; [|discriminate].
@@ -220,12 +289,13 @@ Proof.
     end = Some (hs, upd, extra) ->
     (forall k y, In (k, y) extra -> lookupN k (s_ws st) = None)
     /\ (forall x ws0, upd = Some x -> Some ws = Some ws0 ->
-          RecordedEarly st ev (e_ws ev) (w_disk ws0) \/ absent_from_view st (e_ws ev) = true)).
+          w_disk x = w_disk ws0
+          \/ RecordedEarly st ev (e_ws ev) (w_disk ws0) \/ absent_from_view st (e_ws ev) = true)).
   { intros h Hh H0. destruct (tree_of (s_ops st) h (e_ws ev)) eqn:T.
     - split; [eapply exp_present_extra; eauto|].
-      intros x ws0 -> E. inversion E. subst ws0. left. eapply exp_present_safe; eauto.
+      intros x ws0 -> E. inversion E. subst ws0. right. left. eapply exp_present_safe; eauto.
     - split; [eapply exp_absent_extra; eauto|].
-      intros x ws0 _ _. right. unfold absent_from_view. now rewrite Hh, T. }
+      intros x ws0 _ _. right. right. unfold absent_from_view. now rewrite Hh, T. }
   destruct (e_kind ev) eqn:K.
   - (* normal *)
     destruct (s_heads st) as [|h [|h2 t]] eqn:Hh; try discriminate. eapply Present; eauto.
@@ -236,13 +306,30 @@ Proof.
   - (* update-stale *)
     split.
     + apply exp_update_stale_extra in H. subst. intros k y [].
-    + intros x ws0 -> E. inversion E. subst ws0. left.
-      now destruct (exp_update_stale_safe st ev ws hs x extra H).
+    + intros x ws0 _ E. inversion E. subst ws0. right. left.
+      eapply exp_update_stale_recorded; eauto.
   - (* workspace add *)
     destruct (s_heads st) as [|h [|h2 t]] eqn:Hh; try discriminate. eapply Present; eauto.
   - (* at-op *)
     destruct ((x <? length (s_ops st)) && chain_from x (length (s_ops st)) (e_ops ev)); [|discriminate].
     inversion H. subst. split; [intros k y []|]. intros x0 ws0 X. discriminate.
+  - (* op abandon: the disk is not touched *)
+    destruct (s_heads st) as [|h [|h2 t]] eqn:Hh; try discriminate.
+    destruct (e_ops ev) as [|H0 [|H1 t1]]; try discriminate.
+    + inversion H. subst. split; [intros k y []|]. intros x0 ws0 X. discriminate.
+    + match type of H with (if ?c then _ else _) = _ => destruct c; [|discriminate] end.
+      inversion H. subst. split; [intros k y []|].
+      intros x0 ws0 X E. inversion E. subst ws0. left.
+      destruct (Nat.eqb (w_op ws) h); inversion X. reflexivity.
+  - (* gc *)
+    destruct (s_heads st) as [|h [|h2 t]] eqn:Hh; try discriminate. eapply Present; eauto.
+  - (* recovery, then the command *)
+    destruct (s_heads st) as [|h [|h2 t]] eqn:Hh; try discriminate.
+    destruct (memn (w_op ws) (s_lost st)); [|discriminate].
+    split.
+    + apply exp_recover_extra in H. subst. intros k y [].
+    + intros x0 ws0 _ E. inversion E. subst ws0. right. left.
+      eapply exp_recover_recorded; eauto.
   - (* merge of operation heads *)
     destruct (s_heads st) as [|h1 [|h2 t]]; try discriminate.
     destruct (e_ops ev) as [|M [|M2 t2]]; try discriminate.
@@ -252,20 +339,23 @@ Proof.
 Qed.
 
 Lemma accept_inv st ev st' : accept st ev = Some st' ->
-  st' = mk_state (s_ops st ++ e_ops ev) (e_heads ev) (e_ws_post ev)
+  st' = mk_state (s_ops st ++ e_ops ev) (e_heads ev) (e_ws_post ev) (lost_after st ev)
+  /\ e_status ev <> 3%N
   /\ (early_error st ev = true
       \/ exists r, expected_res st ev = Some r
                    /\ snd (apply_res st (e_ws ev) r) = e_ws_post ev
                    /\ fst (apply_res st (e_ws ev) r) = e_heads ev).
 Proof.
   unfold accept, expected. intros H.
+  destruct (N.eqb (e_status ev) 3) eqn:E3; cbn [negb andb] in H; [discriminate|].
+  assert (N3 : e_status ev <> 3%N) by (intros X; rewrite X in E3; discriminate).
   destruct (early_error st ev) eqn:E; cbn [orb] in H.
   - inversion H. auto.
   - destruct (expected_res st ev) as [r|]; [|discriminate].
     destruct (apply_res st (e_ws ev) r) as [hs wsl] eqn:A.
     destruct (wf_from (map o_par (e_ops ev)) (length (s_ops st))
               && list_eqb Nat.eqb (e_heads ev) hs && wsl_eqb (e_ws_post ev) wsl) eqn:C; [|discriminate].
-    inversion H. split; [reflexivity|]. right. exists r. rewrite A. cbn [fst snd].
+    inversion H. split; [reflexivity|]. split; [assumption|]. right. exists r. rewrite A. cbn [fst snd].
     rewrite !andb_true_iff in C. destruct C as [[_ C1] C2].
     apply wsl_eqb_spec in C2. apply list_eqb_nat_spec in C1. auto.
 Qed.
@@ -276,7 +366,7 @@ Theorem accept_step_safe st ev st' :
   exists ws', lookupN w (s_ws st') = Some ws' /\ StepSafe st ev w ws ws'.
 Proof.
   intros Hacc Hk w ws Hw.
-  destruct (accept_inv st ev st' Hacc) as [-> [He|[r [Hr [Hpost _]]]]]; cbn [s_ws].
+  destruct (accept_inv st ev st' Hacc) as [-> [_ [He|[r [Hr [Hpost _]]]]]]; cbn [s_ws].
   - (* failed before loading the workspace *)
     unfold early_error in He. rewrite !andb_true_iff in He. destruct He as [_ He].
     apply wsl_eqb_spec in He. rewrite He. exists ws. split; [assumption|now left].
@@ -286,7 +376,7 @@ Proof.
     + destruct (N.eq_dec w (e_ws ev)) as [->|Hne].
       * exists x. split.
         -- apply lookupN_app_some. eapply lookupN_set_same; eauto.
-        -- right. split; [reflexivity|]. eapply Hsafe; eauto.
+        -- destruct (Hsafe x ws eq_refl Hw) as [D|R]; [now left|right; split; [reflexivity|exact R]].
       * exists ws. split; [|now left].
         apply lookupN_app_some. now rewrite lookupN_set_other.
     + exists ws. split; [|now left]. now apply lookupN_app_some.
@@ -302,7 +392,7 @@ Lemma accept_stale_aborts st ev st' h ws :
   e_ops ev = [] /\ e_ws_post ev = s_ws st.
 Proof.
   intros Hacc Hh Hw Hk Ht Hs.
-  destruct (accept_inv st ev st' Hacc) as [_ [He|[r [Hr [Hpost _]]]]].
+  destruct (accept_inv st ev st' Hacc) as [_ [_ [He|[r [Hr [Hpost _]]]]]].
   - unfold early_error in He. rewrite !andb_true_iff in He.
     destruct He as [[[[_ Hn] _] _] He]. apply wsl_eqb_spec in He.
     destruct (e_ops ev); [auto|discriminate].
@@ -312,7 +402,8 @@ Proof.
         (destruct (tree_of (s_ops st) h (e_ws ev)); [assumption|congruence]). }
     unfold exp_present in X.
     assert (Y : (if N.eqb (e_status ev) 1 && is_nil (e_ops ev) then Some ([h], None, []) else None) = Some r).
-    { destruct Hs as [E|E]; rewrite E in X; exact X. }
+    { destruct (memn (w_op ws) (s_lost st)); [exact X|].
+      destruct Hs as [E|E]; rewrite E in X; exact X. }
     destruct (N.eqb (e_status ev) 1 && is_nil (e_ops ev)) eqn:C; [|discriminate].
     inversion Y. subst r. cbn in Hpost. rewrite app_nil_r in Hpost.
     apply andb_true_iff in C. destruct C as [_ C].
@@ -377,7 +468,7 @@ Proof.
   left. exists i.
   destruct (run_ops_prefix t st1 stf Hrun) as [more Hm].
   rewrite Hm, (accept_ops _ _ _ Ha).
-  destruct (firstn1_prefix (e_ops ev)) as [r Hr].
+  destruct (firstn_prefix (early_n ev) (e_ops ev)) as [r Hr].
   rewrite Hr at 1. rewrite <- !app_assoc. rewrite app_assoc. now apply tree_of_app.
 Qed.
 
@@ -403,14 +494,14 @@ Qed.
 (** What [event_okb] decides, for a command event. *)
 Definition EventOk (strict : bool) (rec : list (nat * N * N)) (st : state) (ev : event) : Prop :=
   e_kind ev <> KEdit ->
+  e_status ev <> 3%N /\
   forall w ws, lookupN w (s_ws st) = Some ws ->
     let changed := match lookupN w (e_ws_post ev) with
                    | Some ws' => w_disk ws' <> w_disk ws
                    | None => True
                    end in
     let snapshotted := w = e_ws ev /\ e_status ev = 0%N /\ absent_from_view st w = false
-                       /\ (e_kind ev = KNormal \/ e_kind ev = KUpdateStale
-                           \/ exists nw, e_kind ev = KWorkspaceAdd nw) in
+                       /\ snap_kind (e_kind ev) = true in
     (changed \/ snapshotted) ->
     RecordedIn rec (length (s_ops st) + length (e_ops ev)) w (w_disk ws)
     \/ (strict = false /\ w = e_ws ev /\ absent_from_view st w = true).
@@ -426,28 +517,30 @@ Definition okb_body (strict : bool) (rec : list (nat * N * N)) (st : state) (ev 
                    end in
     let snapshotted := N.eqb w (e_ws ev) && N.eqb (e_status ev) 0
                        && negb (absent_from_view st w)
-                       && match e_kind ev with KNormal | KWorkspaceAdd _ | KUpdateStale => true | _ => false end in
+                       && snap_kind (e_kind ev) in
     negb (changed || snapshotted)
     || recorded rec (length (s_ops st) + length (e_ops ev)) w d
     || (negb strict && N.eqb w (e_ws ev) && absent_from_view st w)
   end.
 
 Lemma event_okb_unfold strict rec st ev : e_kind ev <> KEdit ->
-  event_okb strict rec st ev = forallb (okb_body strict rec st ev) (map fst (s_ws st)).
+  event_okb strict rec st ev
+  = forallb (okb_body strict rec st ev) (map fst (s_ws st)) && negb (N.eqb (e_status ev) 3).
 Proof. unfold event_okb, okb_body. destruct (e_kind ev); intros H; try reflexivity. contradiction. Qed.
 
 Lemma event_okb_spec strict rec st ev : event_okb strict rec st ev = true -> EventOk strict rec st ev.
 Proof.
-  unfold EventOk. intros H Hk w ws Hw Hneed.
-  rewrite (event_okb_unfold _ _ _ _ Hk), forallb_forall in H.
+  unfold EventOk. intros H Hk.
+  rewrite (event_okb_unfold _ _ _ _ Hk), andb_true_iff, forallb_forall in H. destruct H as [H H3].
+  split. { intros X. rewrite X in H3. discriminate. }
+  intros w ws Hw Hneed.
   specialize (H w (lookupN_in_keys _ _ _ Hw)). unfold okb_body in H. rewrite Hw in H.
   rewrite !orb_true_iff in H. destruct H as [[F|F]|F].
   - exfalso. apply negb_true_iff in F. apply orb_false_iff in F. destruct F as [F1 F2].
     destruct Hneed as [Hc|[-> [Hs [Ha Hi]]]].
     + destruct (lookupN w (e_ws_post ev)) as [ws'|]; [|discriminate].
       apply negb_false_iff, N.eqb_eq in F1. contradiction.
-    + rewrite N.eqb_refl, Hs, Ha in F2. cbn in F2.
-      destruct Hi as [K|[K|[nw K]]]; rewrite K in F2; discriminate.
+    + rewrite N.eqb_refl, Hs, Ha, Hi in F2. discriminate.
   - left. now apply recorded_spec.
   - right. rewrite !andb_true_iff in F. destruct F as [[F1 F2] F3].
     apply negb_true_iff in F1. apply N.eqb_eq in F2. auto.
@@ -462,45 +555,43 @@ Lemma exp_present_recorded st ev h ws r :
   RecordedEarly st ev (e_ws ev) (w_disk ws).
 Proof.
   unfold exp_present. intros H Hst. rewrite Hst in H. cbn [N.eqb] in H.
+  destruct (memn (w_op ws) (s_lost st)); cbn [andb] in H; [discriminate|].
   destruct (check_stale (s_ops st) ws h (e_ws ev)); cbn [andb] in H; try discriminate.
   - destruct (snapshot_phase (s_ops st) h (e_ws ev) (w_disk ws) (e_ops ev)) as [[[cur body] bidx]|] eqn:S;
       [|discriminate].
-    exists cur. eapply snapshot_phase_recorded; eauto.
+    eapply recorded_early_1. eapply snapshot_phase_recorded; eauto.
   - destruct (snapshot_phase (s_ops st) wc_op (e_ws ev) (w_disk ws) (e_ops ev)) as [[[cur body] bidx]|] eqn:S;
       [|discriminate].
-    exists cur. eapply snapshot_phase_recorded; eauto.
-Qed.
-
-Lemma exp_update_stale_recorded st ev ws r :
-  exp_update_stale st ev ws = Some r -> RecordedEarly st ev (e_ws ev) (w_disk ws).
-Proof.
-  unfold exp_update_stale.
-  destruct (snapshot_phase (s_ops st) (w_op ws) (e_ws ev) (w_disk ws) (e_ops ev))
-    as [[[cur rest] idx]|] eqn:S; [|discriminate].
-  intros _. exists cur. eapply snapshot_phase_recorded; eauto.
+    eapply recorded_early_1. eapply snapshot_phase_recorded; eauto.
 Qed.
 
 Lemma accept_snapshotted st ev st' ws :
   accept st ev = Some st' -> e_status ev = 0%N ->
   lookupN (e_ws ev) (s_ws st) = Some ws ->
   absent_from_view st (e_ws ev) = false ->
-  (e_kind ev = KNormal \/ e_kind ev = KUpdateStale \/ exists nw, e_kind ev = KWorkspaceAdd nw) ->
+  snap_kind (e_kind ev) = true ->
   RecordedEarly st ev (e_ws ev) (w_disk ws).
 Proof.
   intros Hacc Hst Hw Habs Hk.
-  destruct (accept_inv st ev st' Hacc) as [_ [He|[r [Hr _]]]].
+  destruct (accept_inv st ev st' Hacc) as [_ [_ [He|[r [Hr _]]]]].
   - unfold early_error in He. rewrite Hst in He. discriminate.
   - unfold expected_res in Hr. rewrite Hw in Hr.
-    destruct Hk as [K|[K|[nw K]]]; rewrite K in Hr.
-    + destruct (s_heads st) as [|h [|h2 t]] eqn:Hh; try discriminate.
-      unfold absent_from_view in Habs. rewrite Hh in Habs.
+    assert (Present : forall h, s_heads st = [h] ->
+      match tree_of (s_ops st) h (e_ws ev) with
+      | Some _ => exp_present st ev h ws
+      | None => exp_absent st ev h ws
+      end = Some r -> RecordedEarly st ev (e_ws ev) (w_disk ws)).
+    { intros h Hh H0. unfold absent_from_view in Habs. rewrite Hh in Habs.
       destruct (tree_of (s_ops st) h (e_ws ev)) eqn:T; [|discriminate].
-      eapply exp_present_recorded; eauto.
+      eapply exp_present_recorded; eauto. }
+    destruct (e_kind ev) eqn:K; try discriminate.
+    + destruct (s_heads st) as [|h [|h2 t]] eqn:Hh; try discriminate. eapply Present; eauto.
     + eapply exp_update_stale_recorded; eauto.
+    + destruct (s_heads st) as [|h [|h2 t]] eqn:Hh; try discriminate. eapply Present; eauto.
+    + destruct (s_heads st) as [|h [|h2 t]] eqn:Hh; try discriminate. eapply Present; eauto.
     + destruct (s_heads st) as [|h [|h2 t]] eqn:Hh; try discriminate.
-      unfold absent_from_view in Habs. rewrite Hh in Habs.
-      destruct (tree_of (s_ops st) h (e_ws ev)) eqn:T; [|discriminate].
-      eapply exp_present_recorded; eauto.
+      destruct (memn (w_op ws) (s_lost st)); [|discriminate].
+      eapply exp_recover_recorded; eauto.
 Qed.
 
 Lemma recorded_early_bound st ev w d :
@@ -509,14 +600,16 @@ Lemma recorded_early_bound st ev w d :
             /\ tree_of (s_ops st ++ e_ops ev) i w = Some d.
 Proof.
   intros [i Hi]. exists i.
-  assert (i < length (s_ops st ++ firstn 1 (e_ops ev))) as Hlt.
-  { unfold tree_of in Hi. destruct (nth_error (s_ops st ++ firstn 1 (e_ops ev)) i) eqn:E; [|discriminate].
+  assert (i < length (s_ops st ++ firstn (early_n ev) (e_ops ev))) as Hlt.
+  { unfold tree_of in Hi.
+    destruct (nth_error (s_ops st ++ firstn (early_n ev) (e_ops ev)) i) eqn:E; [|discriminate].
     apply nth_error_Some. congruence. }
   rewrite app_length in Hlt.
-  assert (length (firstn 1 (e_ops ev)) <= length (e_ops ev)) by (destruct (e_ops ev); cbn; lia).
+  destruct (firstn_prefix (early_n ev) (e_ops ev)) as [r Hr].
+  assert (length (firstn (early_n ev) (e_ops ev)) <= length (e_ops ev)).
+  { rewrite Hr at 2. rewrite app_length. lia. }
   split; [lia|].
-  destruct (firstn1_prefix (e_ops ev)) as [r Hr]. rewrite Hr at 1.
-  rewrite app_assoc. now apply tree_of_app.
+  rewrite Hr at 1. rewrite app_assoc. now apply tree_of_app.
 Qed.
 
 Lemma accept_event_okb rec st ev st' :
@@ -528,7 +621,10 @@ Proof.
   destruct (match e_kind ev with KEdit => true | _ => false end) eqn:KE.
   { unfold event_okb. destruct (e_kind ev); try discriminate. reflexivity. }
   assert (Hk : e_kind ev <> KEdit) by (intros X; rewrite X in KE; discriminate).
-  rewrite (event_okb_unfold _ _ _ _ Hk). apply forallb_forall. intros w _.
+  rewrite (event_okb_unfold _ _ _ _ Hk). apply andb_true_iff. split;
+    [|destruct (accept_inv st ev st' Hacc) as [_ [N3 _]];
+      destruct (N.eqb (e_status ev) 3) eqn:E3; [apply N.eqb_eq in E3; contradiction|reflexivity]].
+  apply forallb_forall. intros w _.
   unfold okb_body. destruct (lookupN w (s_ws st)) as [ws|] eqn:Hw; [|reflexivity].
   destruct (accept_step_safe st ev st' Hacc Hk w ws Hw) as [ws' [Hw' Hsafe]].
   destruct (accept_inv st ev st' Hacc) as [E _].
@@ -547,13 +643,12 @@ Proof.
     + rewrite A, N.eqb_refl. cbn [andb]. apply orb_true_r.
   - cbn [orb].
     destruct (N.eqb w (e_ws ev) && N.eqb (e_status ev) 0 && negb (absent_from_view st w)
-              && match e_kind ev with KNormal | KWorkspaceAdd _ | KUpdateStale => true | _ => false end) eqn:Sn;
+              && snap_kind (e_kind ev)) eqn:Sn;
       [|reflexivity].
     rewrite !andb_true_iff in Sn. destruct Sn as [[[S1 S2] S3] S4].
     apply N.eqb_eq in S1, S2. apply negb_true_iff in S3. subst w.
     assert (R : RecordedEarly st ev (e_ws ev) (w_disk ws)).
-    { eapply accept_snapshotted; eauto.
-      destruct (e_kind ev); try discriminate; eauto. }
+    { eapply accept_snapshotted; eauto. }
     rewrite (Rec R). reflexivity.
 Qed.
 
